@@ -9,6 +9,15 @@ const (
 	bitcoinPaymentWindow    uint32 = bitcoinSwapCSV / 2
 	bitcoinInvoiceFinalCLTV uint64 = uint64(bitcoinPaymentWindow - 1)
 
+	// bitcoinClaimHTLCSlack is the number of blocks kept between the latest
+	// block in which the HTLC of a Bitcoin claim payment can still be settled
+	// (payment height + final CLTV delta of the invoice + the padding the
+	// lightning back-ends add to a direct route, at most 3) and the earliest
+	// block in which the maker can confirm a csv refund. It also absorbs an
+	// opening transaction that confirmed a few blocks before the taker's
+	// starting height.
+	bitcoinClaimHTLCSlack uint64 = 12
+
 	legacyLiquidSwapCSV     uint32 = 60
 	legacyLiquidFinalCLTV   uint64 = uint64(legacyLiquidSwapCSV/2 - 1)
 	liquidSwapCSV           uint32 = 7 * 24 * 60
@@ -36,6 +45,25 @@ func ValidateTotalCLTVDelta(required, limit uint32) error {
 			"invoice requires CLTV delta %d, maximum is %d",
 			required,
 			limit,
+		)
+	}
+	return nil
+}
+
+// checkBitcoinClaimTimelock relates the invoice's final CLTV delta to the
+// current height: the claim HTLC has to time out before startingHeight + csv,
+// the earliest height at which the maker can refund an opening transaction
+// that confirmed at the starting height. Bounding the invoice CLTV and the
+// payment height separately is not enough (504 + 504 reaches the csv).
+func checkBitcoinClaimTimelock(currentHeight, startingHeight, csv uint32, finalCLTVDelta int64) error {
+	if finalCLTVDelta < 0 {
+		return fmt.Errorf("unsafe invoice cltv: %d", finalCLTVDelta)
+	}
+	htlcEnd := uint64(currentHeight) + uint64(finalCLTVDelta) + bitcoinClaimHTLCSlack
+	if htlcEnd >= uint64(startingHeight)+uint64(csv) {
+		return fmt.Errorf(
+			"claim payment would overlap the csv refund: height %d, invoice cltv %d, starting height %d, csv %d",
+			currentHeight, finalCLTVDelta, startingHeight, csv,
 		)
 	}
 	return nil
